@@ -24,6 +24,17 @@ Theorem C03_fields_in_order :
 Proof. exact write_row_spec. Qed.
 Print Assumptions C03_fields_in_order.
 
+(* objects nested in a field are emitted before the row that contains them, friends after it *)
+Theorem C03_nested_before_parent_friends_after :
+  forall n e t i s s' r,
+    run (S n) e (TRow t i) s = Ok (s', r) ->
+    exists fields_rows this friends_rows,
+      out s' = (friends_rows ++ this ++ fields_rows ++ out s)%list /\
+      Forall clean_row fields_rows /\ Forall clean_row friends_rows /\
+      (this = [] \/ exists row, this = [row] /\ fst row = t_table t /\ clean_row row).
+Proof. exact row_emission_order. Qed.
+Print Assumptions C03_nested_before_parent_friends_after.
+
 (* a row keeps its table, id and child index for as long as it is reachable *)
 Theorem C03_rows_immutable_identity :
   forall fuel e tk s s' r, run fuel e tk s = Ok (s', r) -> heap_ext s s'.
